@@ -13,6 +13,7 @@ package main
 
 import (
 	"bytes"
+	"context"
 	"encoding/json"
 	"fmt"
 	"hash/fnv"
@@ -202,7 +203,7 @@ func worker(args []string) {
 	j := &journal{f: jf}
 	var rl *raceLog
 	if st.Race {
-		rl = newRaceLog(filepath.Join(outdir, fmt.Sprintf("race.%d.%d", shard, os.Getpid())))
+		rl = newRaceLog(filepath.Join(outdir, fmt.Sprintf("race.%d.%d", shard, os.Getpid())), st.Prop)
 	}
 	scs := st.Scenarios(thorough)
 	res := &workerResult{Shard: shard, Outcomes: map[string]int64{}, Found: map[string]*found{}, BoundDoneMin: 99, BoundsCompleted: map[string]int{}}
@@ -353,7 +354,11 @@ func replay(args []string) {
 // ---- parent -------------------------------------------------------------------------------------
 
 func parent(prop string) {
-	st := getSuite(prop)
+	key := prop // suite key: "<Prop>" or "<Prop>:<part argument>" (META "args")
+	if len(os.Args) > 3 && os.Args[3] != "" {
+		key = prop + ":" + os.Args[3]
+	}
+	st := getSuite(key)
 	run := ev.Start(prop)
 	thorough := run.Thorough()
 	self := os.Getenv("VERIF_BIN")
@@ -367,7 +372,6 @@ func parent(prop string) {
 	if err != nil {
 		ev.Fatal("%v", err)
 	}
-	defer os.RemoveAll(outdir)
 	nsc := st.Scenarios(thorough).N
 	n := runtime.NumCPU()
 	if n > nsc {
@@ -386,7 +390,15 @@ func parent(prop string) {
 		wg.Add(1)
 		go func(i int) {
 			defer wg.Done()
-			cmd := exec.Command(self, "worker", prop, tier, strconv.Itoa(i), strconv.Itoa(n), outdir)
+			// watchdog: a worker that is still alive well after its own time budget hangs in a real
+			// (unmodelled) blocking operation: that is an internal error of the harness, not a verdict
+			limit := 3 * time.Minute
+			if thorough {
+				limit = 16 * time.Minute
+			}
+			ctx, cancel := context.WithTimeout(context.Background(), limit)
+			defer cancel()
+			cmd := exec.CommandContext(ctx, self, "worker", key, tier, strconv.Itoa(i), strconv.Itoa(n), outdir)
 			cmd.Env = append(os.Environ(), "GOMAXPROCS=1")
 			if st.Race {
 				// discovery: the detector reports into a log and the exploration goes on; every distinct
@@ -405,6 +417,7 @@ func parent(prop string) {
 	wg.Wait()
 	for _, e := range errs {
 		if e != "" {
+			_ = os.RemoveAll(outdir)
 			ev.Fatal("%s", e)
 		}
 	}
@@ -501,7 +514,7 @@ func parent(prop string) {
 	for _, k := range keys {
 		f := total.Found[k]
 		if st.Race && strings.Contains(k, ":race:") {
-			confirmRace(self, prop, tier, f)
+			confirmRace(self, key, prop, tier, f)
 		}
 		var sched []string
 		for _, s := range f.Trace {
@@ -509,7 +522,7 @@ func parent(prop string) {
 		}
 		run.Violation(f.Key, fmt.Sprintf("%s [scenario %q, schedule %v, %d preemption(s), seen in %d execution(s)]", f.What, f.Name, f.Choices, f.Preemptions, f.Count),
 			map[string]any{"binary": "sched", "scenario_index": f.Scenario, "scenario": f.Name, "tier": tier, "choices": f.Choices, "preemptions": f.Preemptions,
-				"operations": sched, "rerun": fmt.Sprintf("%s replay %s %s %d '%s'", filepath.Base(self), prop, tier, f.Scenario, jsonInts(f.Choices))})
+				"operations": sched, "rerun": fmt.Sprintf("%s replay %s %s %d '%s'", filepath.Base(self), key, tier, f.Scenario, jsonInts(f.Choices))})
 	}
 	fmt.Printf("%s sched: scenarios=%d executions=%d (by bound iteration %v) distinct schedules=%d (by preemptions %v) scenarios completed per preemption bound=%v distinct outcomes=%d multi-schedule scenarios=%d (single-outcome: %d) exec/s=%d workers=%d\n",
 		prop, total.Scenarios, execs, total.ExecsByBound, distinct, total.NewByBound, total.BoundsCompleted, len(total.Outcomes), total.Multi, total.PerScenario1,
@@ -517,6 +530,7 @@ func parent(prop string) {
 	if st.Finish != nil {
 		st.Finish(run, thorough)
 	}
+	_ = os.RemoveAll(outdir)
 	run.Finish()
 }
 
@@ -537,9 +551,9 @@ func tail(s string, n int) string {
 
 // confirmRace replays the schedule twice in fresh processes with the race detector as a halting
 // oracle (exit code 66); both must die with the same pair of functions.
-func confirmRace(self, prop, tier string, f *found) {
+func confirmRace(self, key, prop, tier string, f *found) {
 	runOnce := func(gorace string) (int, string) {
-		cmd := exec.Command(self, "replay", prop, tier, strconv.Itoa(f.Scenario), jsonInts(f.Choices))
+		cmd := exec.Command(self, "replay", key, tier, strconv.Itoa(f.Scenario), jsonInts(f.Choices))
 		cmd.Env = append(os.Environ(), "GOMAXPROCS=1", "GORACE="+gorace)
 		var stderr bytes.Buffer
 		cmd.Stderr = &stderr
